@@ -81,6 +81,13 @@ class Evaluator:
                 return FuncRef(self.sx.func.mod.funcs[t[1]])
             if t[1] in getattr(self.sx.func.mod, "classes", {}) or t[1] in getattr(self.sx, "prog", type("x", (), {"classes": {}})).classes:
                 return ClassRef(t[1])          # a class used as a value (an entry of a table of node classes): only its identity matters
+            mod_ = self.sx.func.mod
+            if t[1] in getattr(mod_, "consts", {}):
+                # a module-level constant (a tuple / frozenset of the player names, a table of limits): its folded value
+                try:
+                    return self.sx.ctx.prog.const_eval(mod_.consts[t[1]], mod_)
+                except Exception:
+                    pass
             raise EvalUnsupported("free symbol %s has no witness value" % t[1])
         if h == "apply":
             fv = self.ev(t[1], loc)
@@ -114,9 +121,19 @@ class Evaluator:
             return set(self.ev(x, loc) for x in t[1])
         if h == "add":
             try:
-                s = self.ev(t[1][0], loc)
-                for x in t[1][1:]:
-                    s = s + self.ev(x, loc)
+                # a - b is kept as a + (-b): evaluated as the subtraction it was (sets subtract, they do not negate)
+                pos_ = [x for x in t[1] if x[0] != "neg"]
+                neg_ = [x[1] for x in t[1] if x[0] == "neg"]
+                if pos_:
+                    s = self.ev(pos_[0], loc)
+                    for x in pos_[1:]:
+                        s = s + self.ev(x, loc)
+                    for x in neg_:
+                        s = s - self.ev(x, loc)
+                else:
+                    s = -self.ev(neg_[0], loc)
+                    for x in neg_[1:]:
+                        s = s - self.ev(x, loc)
                 return s
             except TypeError as e:
                 raise Crash("TypeError", show(t))
